@@ -404,6 +404,22 @@ pub open spec fn asm_inv(c: &Context, o: &Output) -> bool {
         toks(final(out).data@.last()@) == @TOKS(L:set N:n), //# C12,C11 asm.emitted_line_is_the_directive_in_the_loaders_syntax
 //@end
 
+// print mem <start> : <length>  -- refused when it would run past the end of memory
+//@action src/lib/preprocessor/preprocessor.rs print_stmt = quote_print, quote_mem, raw_addr, ":", raw_addr as as_print_mem_len
+//@contract
+//@fmttoks
+    requires old(context).mapper.v_next() < usize::MAX,
+        s < 0x100000, e < 0x100000,          // what raw_addr delivers (unit numbers: value modulo 1 MB)
+    ensures
+        s + e >= 0x100000 ==> r.is_err() && final(out).code@ == old(out).code@ && final(context).mapper.v_next() == old(context).mapper.v_next(), //# C17,C14 asm.print_range_past_the_end_of_memory_is_refused
+        s + e < 0x100000 ==> r.is_ok() && final(out).code@.len() == old(out).code@.len() + 1
+            && final(out).code@.subrange(0, old(out).code@.len() as int) == old(out).code@
+            && final(context).mapper.v_next() == old(context).mapper.v_next() + 1,
+        r.is_ok() ==> toks(final(out).code@.last()@) == @TOKS(L:print L:mem N:s L:: N:e), //# C17,C11 asm.emitted_line_is_the_source_instruction_in_the_interpreters_syntax
+        final(out).data@ == old(out).data@, final(context).label_map@ == old(context).label_map@, final(context).fn_map@ == old(context).fn_map@,
+        asm_inv(old(context), old(out)) ==> asm_inv(final(context), final(out)), //# C08,C16 asm.output_invariant_preserved
+//@end
+
 // ---- memory operands: [disp] / [reg] / [base,disp] / [index,disp] / [base,index,disp], optional segment override `seg:`;
 // the text handed on is the operand as written (a missing displacement of the based-indexed form is rendered as 0)
 //@action src/lib/preprocessor/preprocessor.rs memory_addr = "[", u_word_num, "]" as as_mem_direct
